@@ -283,7 +283,7 @@ def run_case(spec):
     res = dict(sample=None)
     shared = Constraints(lab.copy())      # one object serves every call of the case: a call history
     if kind == 'pairs':
-        for nc in (1, 2, 5):
+        for nc in (1, 2, 5, 12):
             for same in (False, True):
                 for seed in (0, 1, 2):
                     out, w = call(shared.positive_negative_pairs, nc, same_length=same, random_state=seed)
@@ -313,7 +313,7 @@ def run_case(spec):
                     viol += vs
                     if len(out[0]) + len(out[2]) > 0:
                         sigs.add(('pairs', shape_sig(lab), nc, same, len(out[0]), len(out[2])))
-        res['sample'] = {'kind': 'pairs', 'labels': list(t), 'n_constraints': [1, 2, 5], 'same_length': [False, True],
+        res['sample'] = {'kind': 'pairs', 'labels': list(t), 'n_constraints': [1, 2, 5, 12], 'same_length': [False, True],
                          'seeds': [0, 1, 2]}
     elif kind == 'chunks':
         for nch in (1, 2, 3):
